@@ -929,3 +929,6 @@ def char_len_utf8(eng, c, a, g):
         v = ch.as_long(); return BV(1 if v < 0x80 else 2 if v < 0x800 else 3 if v < 0x10000 else 4, W)
     return IF(ULT(ch, BV(0x80, 32)), BV(1, W), IF(ULT(ch, BV(0x800, 32)), BV(2, W), IF(ULT(ch, BV(0x10000, 32)), BV(3, W), BV(4, W))))
 MODELS_NORM = [(re.compile(r'<Range<usize> as ExactSizeIterator>::len'), range_len), (re.compile(r'<impl char>::len_utf8'), char_len_utf8)] + MODELS_NORM
+
+def str_ne(eng, c, a, g): return NOT(str_eq(eng, c, a, g))
+MODELS_NORM = [(re.compile(r'<&?str as PartialEq(<.*>)?>::ne'), str_ne)] + MODELS_NORM
